@@ -158,6 +158,18 @@ def part_functions(ctx, cfg):
         [EQ(a, v), EQ(b, v), z == [0, 0], EQ(sv[0], c), EQ(sv[1], c),
          divide_null(v) is None, e1 == {} and e2 == {}] + part),
         sig='functions', info=lambda: dict(keys=keys, d1=d1, d2=d2))
+    # quantities and the string 'Infinity' (concrete, chosen by forking)
+    from vivarium.core.registry import divide_split
+    from vivarium.library.units import units
+    q = [4.0 * units.g, 3 * units.mg, 0.0 * units.m][ctx.choice('q', 3)]
+    qa, qb = divide_split(q)
+    ia, ib = divide_split('Infinity')
+    fa, fb = divide_split(float('inf'))
+    ctx.claim('C11.functions', qa + qb == q and qa.units == q.units
+              and ia == 'Infinity' and ib == 'Infinity'
+              and fa == float('inf') and fb == float('inf'),
+              sig='split-quantity', info=lambda: dict(q=str(q), a=str(qa),
+                                                      b=str(qb)))
     names = {'set': divide_set, 'zero': divide_zero,
              'set_value': divide_set_value, 'split_dict': divide_split_dict,
              'null': divide_null}
